@@ -910,6 +910,6 @@ def gen_frontend(rng, count):
             s += rng.choice(suffixes)
         bs = s.encode("latin-1")
         fmt = rng.choice(["f32", "f64"])
-        for variant in ("simple", "fuzz", "itest", "golang"):
+        for variant in ("simple", "fuzz", "itest", "golang", "random", "unittests"):
             out.append(("fe %s %s %s" % (variant, fmt, btok(bs)), "F-" + variant))
     return out
